@@ -182,8 +182,10 @@ func (proc *Processor) ExecuteStatement(ctx context.Context, stmt parser.Stateme
 		prepared, e := proc.Tx.PreparedStatements.Get(execStmt.Name)
 		if e != nil {
 			err = e
+		} else if values, e := EvaluateReplaceValues(ctx, proc.ReferenceScope, execStmt.Values); e != nil {
+			err = e
 		} else {
-			flow, err = proc.execute(ContextForPreparedStatement(ctx, NewReplaceValues(execStmt.Values)), prepared.Statements)
+			flow, err = proc.execute(ContextForPreparedStatement(ctx, values), prepared.Statements)
 		}
 	case parser.DisposeStatement:
 		err = proc.Tx.PreparedStatements.Dispose(stmt.(parser.DisposeStatement))
